@@ -120,12 +120,12 @@ class Ghost:
     def map_method(self, m, name, args, kwargs, node):
         I = self.I
         if name == "get":
-            k = m.keysort.encode(I, args[0])
+            k = m.key(I, args[0])
             if I.ctx.decide(z3.Select(m.dom, k)):
                 return m.valwrap(I, z3.Select(m.val, k))
             return args[1] if len(args) > 1 else None
         if name == "pop":
-            k = m.keysort.encode(I, args[0])
+            k = m.key(I, args[0])
             if I.ctx.decide(z3.Select(m.dom, k)):
                 v = m.valwrap(I, z3.Select(m.val, k))
                 m.dom = z3.Store(m.dom, k, z3.BoolVal(False))
@@ -391,6 +391,51 @@ class Ghost:
         ctx.register_input(name, ex)
         return SeqV(n, lambda i, f=f, tag=tag: Opaque(f(zint(i)), tag), "tuple", ident=name)
 
+    def vc_map(self, args, kwargs, node):
+        """vc.map(name, key=desc, val=desc, default=None): dict with arbitrary contents"""
+        from .valenc import KeySort, Val, model_value
+
+        ctx = self.I.ctx
+        name = args[0]
+        dk = kwargs["key"]
+        dv = kwargs["val"]
+        dom = z3.Array(name + ".dom", Val, z3.BoolSort())
+        val = z3.Array(name + ".val", Val, Val)
+        m = MapV(KeySort(dk), dom, val, dk, dv, default_factory=kwargs.get("default"), ident=name)
+        m.inv = kwargs.get("inv")
+
+        def ex(model, m=m):
+            out = []
+            seen = set()
+            for kt in m.touched:
+                kj = model_value(model, m.desc_key, kt)
+                key = repr(kj)
+                if key in seen:
+                    continue
+                seen.add(key)
+                if z3.is_true(model.eval(z3.Select(m.dom0, kt), model_completion=True)):
+                    out.append([kj, model_value(model, m.desc_val, z3.Select(m.val0, kt))])
+            return out
+
+        ctx.register_input(name, ex)
+        return m
+
+    def vc_copy(self, args, kwargs, node):
+        """vc.copy(x): independent copy of a mutable harness value with equal contents"""
+        v = args[0]
+        if isinstance(v, MapV):
+            c = MapV(v.keysort, v.dom, v.val, v.desc_key, v.desc_val, v.default_factory, v.ident, touched=v.touched)
+            c.dom0, c.val0 = v.dom0, v.val0
+            c.inv = v.inv
+            return c
+        if isinstance(v, DictV):
+            return DictV(v.pairs, v.default_factory)
+        if isinstance(v, ListV):
+            return ListV(v.items)
+        if isinstance(v, SetV):
+            return SetV(v.items, v.frozen)
+        raise OutsideSubset(f"vc.copy of {type(v).__name__}")
+
     def vc_intset(self, args, kwargs, node):
         """vc.intset(name): arbitrary frozenset of ints (membership symbolic)"""
         ctx = self.I.ctx
@@ -494,6 +539,23 @@ class Ghost:
         o, cls = args
         return o.kind == "raise" and o.exc.cls.issubclass(cls)
 
+    def vc_lock_discipline(self, args, kwargs, node):
+        """vc.lock_discipline(map_name, label): every access to the named map recorded on
+        this path happened while a lock was held (ownership clause, from the ghost trace)"""
+        name, label = args[0], args[1]
+        held = 0
+        ok = True
+        n = 0
+        for ev in self.trace:
+            if ev[0] == "lock":
+                held += 1 if ev[1] == "acquire" else -1
+            elif ev[0] == "map-access" and ev[1] == name:
+                n += 1
+                if held <= 0:
+                    ok = False
+        self.I.ctx.check(ok, label, self.I.where(node))
+        return n
+
     def vc_trace(self, args, kwargs, node):
         return ListV([tuple(t) for t in self.trace])
 
@@ -540,6 +602,14 @@ class Ghost:
             return
         if isinstance(a, ObjV) and isinstance(b, ObjV) and a.cls.builtin and a.cls is b.cls and "packed" in a.fields:
             self.prove_eq(a.fields["packed"], b.fields["packed"], label + ".packed", node)
+            return
+        if isinstance(a, MapV) and isinstance(b, MapV):
+            from .valenc import Val
+
+            k = z3.Const(ctx.fresh_name("skkey"), Val)
+            ctx.check(z3.Select(a.dom, k) == z3.Select(b.dom, k), label + ".domain", where)
+            ctx.assume(z3.Select(a.dom, k))
+            ctx.check(z3.Select(a.val, k) == z3.Select(b.val, k), label + ".values", where)
             return
         f = lib.eq(I, a, b, node)
         ctx.check(f, label, where)
